@@ -17,7 +17,7 @@ Hypotheses used below (all decidable on a concrete history, see the examples at 
 * `(run ops).evicted = []` — the orphan pool never overflowed its bound of 100 (an evicted orphan was
                            delivered but is forgotten by design; wall-clock expiry is not modelled).
 -/
-import BV.C02.Lemmas11
+import BV.C02.Lemmas12
 import BV.C02.Witness
 import BV.Generated.C02
 namespace BV.C02
@@ -139,6 +139,25 @@ theorem active_chain_sound_all_ops (ops : List Op) (hwf : WF (mentioned ops)) :
   obtain ⟨D', h1, hi⟩ := run_safe_all ops hwf
   obtain ⟨a, b, c, d⟩ := pathOK'_plain hi hi.path
   exact ⟨validChain_mono (fun x hx => (h1 x).mp hx) (path_valid' hi hi.path), rep_run ops, a, b, c, d⟩
+
+/-- Across a clean restart (only stored blocks are reloaded, the orphan pool and header-only nodes are
+gone, the best-header view restarts at the tip): the restart itself leaves the active chain and the
+notification stream untouched, and whatever history follows, the active chain stays sound and
+consistent as in `active_chain_sound_all_ops`. -/
+theorem active_chain_sound_across_restart (ops1 ops2 : List Op) (hwf : WF (mentioned (ops1 ++ ops2))) :
+    (restart (run ops1)).best = (run ops1).best ∧ (restart (run ops1)).notes = (run ops1).notes ∧
+    (let s := runFrom (restart (run ops1)) ops2
+     ValidChain (delivered (ops1 ++ ops2)) s.tip (s.wsum s.tip) ∧
+     s.best.getLast? = some 0 ∧
+     (∀ i c p, s.best[i]? = some c → s.best[i + 1]? = some p →
+       ∃ n, lookup s.idx c = some n ∧ n.blk.parent = p) ∧
+     (∀ i c, s.best[i]? = some c → ∃ n, lookup s.idx c = some n ∧ n.height + i + 1 = s.best.length) ∧
+     (∀ c ∈ s.best, (s.status c).data = true ∧ ∃ n, lookup s.idx c = some n ∧ n.blk.connOk = true)) := by
+  refine ⟨rfl, rfl, ?_⟩
+  intro s
+  obtain ⟨D', h1, hi⟩ := run_restart_safe ops1 ops2 hwf
+  obtain ⟨a, b, c, d⟩ := pathOK'_plain hi hi.path
+  exact ⟨validChain_mono (fun x hx => (h1 x).mp hx) (path_valid' hi hi.path), a, b, c, d⟩
 
 /-- The best-header view (`BestHeader`, `HeaderHashByHeight`, `IsValidHeader`): every op other than a
 header delivery leaves its tip untouched — ProcessBlock, processOrphans, reorganisations,
